@@ -4,7 +4,7 @@
    where "=" means the implementation's observation equals the model's, and props are the ids of
    the properties whose Spec the implementation's observation falsifies on this input. *)
 From Coq Require Import String.
-Require Import Base Node Command Glob.
+Require Import Base Node Command Glob Selector.
 Local Open Scope N_scope.
 
 Definition nstr (n : node) : str := match n with Str s => s | Bytes s => s | _ => [] end.
@@ -91,9 +91,62 @@ Definition eng_glob (inp impl : node) : verdict :=
   | _ => bad
   end.
 
+(* ---------------- engine: selector (C12) ---------------- *)
+(* segment descriptor as read through the Go accessors:
+   [identity; optional; iterator; slice (0 or 2 ints); field; index], dispatched as resolve does *)
+Definition min_int64 : Z := (- 9223372036854775808)%Z.
+Definition max_int64 : Z := 9223372036854775807%Z.
+Definition seg_of_node (n : node) : option seg :=
+  match n with
+  | List [Bool idt; Bool opt; Bool itr; List sl; Str f; Int i] =>
+      let k := if idt then Some KIdent
+               else if itr then Some KIter
+               else match f with
+                    | _ :: _ => Some (KField f)
+                    | [] => match sl with
+                            | [Int a; Int b] => Some (KSlice (if (a =? min_int64)%Z then None else Some a)
+                                                             (if (b =? max_int64)%Z then None else Some b))
+                            | [] => Some (KIndex i)
+                            | _ => None
+                            end
+                    end in
+      match k with Some k => Some {| sk := k; sopt := opt |} | None => None end
+  | _ => None
+  end.
+
+Fixpoint segs_of_nodes (l : list node) : option (list seg) :=
+  match l with
+  | [] => Some []
+  | n :: r => match seg_of_node n, segs_of_nodes r with
+              | Some s, Some ss => Some (s :: ss)
+              | _, _ => None
+              end
+  end.
+
+Definition sres_node (r : sres) : node :=
+  match r with
+  | Ok (Some v) => List [Str (lit "ok"); v]
+  | Ok None => List [Str (lit "novalue")]
+  | Err _ => List [Str (lit "err")]
+  | Panic => List [Str (lit "panic")]
+  end.
+
+Definition eng_selector (inp impl : node) : verdict :=
+  match inp with
+  | List [Str _; List segs; v] =>
+      match segs_of_nodes segs with
+      | Some sel =>
+          let m := sres_node (select sel v) in
+          {| model_obs := m; violated := if node_eqb m impl then [] else [lit "C12"] |}
+      | None => bad
+      end
+  | _ => bad
+  end.
+
 (* ---------------- dispatcher ---------------- *)
 Definition engines : list (str * (node -> node -> verdict)) :=
-  [ (lit "command", eng_command); (lit "glob", eng_glob) ].
+  [ (lit "command", eng_command); (lit "glob", eng_glob);
+    (lit "selector", eng_selector) ].
 
 Fixpoint find_engine (e : str) (l : list (str * (node -> node -> verdict))) : option (node -> node -> verdict) :=
   match l with
